@@ -24,7 +24,6 @@ import (
 	"github.com/Ptt-official-app/go-pttbbs/cmbbs"
 	"github.com/Ptt-official-app/go-pttbbs/ptt"
 	"github.com/Ptt-official-app/go-pttbbs/ptttype"
-	"github.com/Ptt-official-app/go-pttbbs/types"
 	"verifharness/internal/bbsenv"
 	"verifharness/internal/hx"
 )
@@ -50,6 +49,8 @@ var (
 	pool     [][]byte
 	reserved [][]byte
 	maskMemo = map[string]string{}
+
+	resetProblem string // the reserved list the loader produced differs from etc/reserved.id
 )
 
 // ---- token syntax (the Lean driver implements the same rules) -----------------------------
@@ -400,6 +401,17 @@ func doLine(line string) (string, *result) {
 		if !ok1 || !ok2 || len(es) != nSlot || len(pl) == 0 || len(pl) > 64 {
 			return "bad-op", nil
 		}
+		for _, r := range rsv {
+			// an entry of etc/reserved.id is the first blank-separated token of a line
+			if len(r) == 0 {
+				return "bad-op", nil
+			}
+			for _, c := range r {
+				if c <= ' ' {
+					return "bad-op", nil
+				}
+			}
+		}
 		specs := make([]slotSpec, nSlot)
 		for i, e := range es {
 			s, ok := parseSlot(e)
@@ -526,9 +538,37 @@ func doReset(rsv, pl [][]byte, specs []slotSpec) {
 			_ = os.MkdirAll(env.Path("home", string(c)), 0o755)
 		}
 	}
-	ptttype.ReservedUserIDs = nil
-	for _, r := range rsv {
-		ptttype.ReservedUserIDs = append(ptttype.ReservedUserIDs, types.Cstr(append([]byte{}, r...)))
+	// the reserved list goes the way it goes in production: etc/reserved.id (one id per line, followed by a remark)
+	// read by ptttype.InitConfig -> initReservedUserIDs
+	var rf bytes.Buffer
+	for k, r := range rsv {
+		rf.Write(r)
+		if k%3 != 2 {
+			rf.WriteString(" reserved for the system, entry " + fmt.Sprint(k))
+		}
+		rf.WriteByte('\n')
+	}
+	_ = os.MkdirAll(env.Path("etc"), 0o755)
+	if err := os.WriteFile(env.Path("etc", "reserved.id"), rf.Bytes(), 0o644); err != nil {
+		panic(err)
+	}
+	shmKey, semKey := ptttype.SHM_KEY, ptttype.PASSWDSEM_KEY
+	if err := ptttype.InitConfig(); err != nil {
+		panic(err)
+	}
+	if ptttype.BBSHOME != env.Home || ptttype.SHM_KEY != shmKey || ptttype.PASSWDSEM_KEY != semKey {
+		panic("ptttype.InitConfig changed the environment")
+	}
+	resetProblem = ""
+	if len(ptttype.ReservedUserIDs) != len(rsv) {
+		resetProblem = fmt.Sprintf("etc/reserved.id has %d ids (%d bytes), ptttype.ReservedUserIDs has %d entries", len(rsv), rf.Len(), len(ptttype.ReservedUserIDs))
+	} else {
+		for k := range rsv {
+			if !bytes.Equal(ptttype.ReservedUserIDs[k], rsv[k]) {
+				resetProblem = fmt.Sprintf("etc/reserved.id (%d ids, %d bytes): entry %d is %q in the file and %q in ptttype.ReservedUserIDs", len(rsv), rf.Len(), k, rsv[k], ptttype.ReservedUserIDs[k])
+				break
+			}
+		}
 	}
 	// a COLD load of the segment (index, money, session table): bbsenv runs with cache.IsTest set, so SHM.Reset acts
 	if err := env.ResetSHM(); err != nil {
@@ -549,6 +589,9 @@ func emit(line string, nontrivial bool) {
 		label = concLabel(r.conc)
 	}
 	i := run.Op(line, out, label, nontrivial)
+	if r != nil && r.kind == "reset" && resetProblem != "" {
+		run.Fail(i, "reserved:loader", resetProblem)
+	}
 	if r != nil && r.kind == "conc" {
 		P.judgeConc(i, line, r.conc)
 	} else if r != nil && r.kind != "reset" {
